@@ -945,6 +945,81 @@ pub fn scenario_concurrent_moderators(ts_b: u64, ts_c: u64) -> ResolveCase {
     case_from(6, evs, &[&["$c", "$ja", "$jr", "$jb", "$jc", "$pb"], &["$c", "$ja", "$jr", "$jb", "$jc", "$pc"]])
 }
 
+/// An event lists TWO power-levels auth events (the stale and the current one) before its create
+/// event (found by a seeding sub-agent on the unchanged tree: the level used for the power ordering
+/// depended on whether the creator was already cached, i.e. on the iteration order of the graph; fixed
+/// in /repo by 2da10dd).  The duplicate-slot rejection rule of the specification is left to the
+/// caller by ruma, so such an event reaches `resolve`.
+pub fn scenario_duplicate_power_levels_slot(ts_x: u64, ts_y: u64, create_first: bool) -> ResolveCase {
+    let xa: &[&str] = if create_first { &["$c", "$p1", "$p2", "$jb"] } else { &["$p1", "$p2", "$c", "$jb"] };
+    let evs = vec![
+        mk("$c", "@alice:a", "m.room.create", "", r#"{"creator":"@alice:a","room_version":"6"}"#, 1, &[]),
+        mk("$ja", "@alice:a", "m.room.member", "@alice:a", JOIN, 2, &["$c"]),
+        mk("$p1", "@alice:a", "m.room.power_levels", "", r#"{"users":{"@alice:a":100,"@bob:b":100}}"#, 3, &["$c", "$ja"]),
+        mk("$jr", "@alice:a", "m.room.join_rules", "", r#"{"join_rule":"public"}"#, 4, &["$c", "$ja", "$p1"]),
+        mk("$jb", "@bob:b", "m.room.member", "@bob:b", JOIN, 5, &["$c", "$p1", "$jr"]),
+        mk("$p2", "@alice:a", "m.room.power_levels", "", r#"{"users":{"@alice:a":100,"@bob:b":50}}"#, 6, &["$c", "$ja", "$p1"]),
+        mk("$t0", "@bob:b", "m.room.topic", "", r#"{"topic":"t"}"#, 7, &["$c", "$p2", "$jb"]),
+        mk("$x", "@bob:b", "m.room.join_rules", "", r#"{"join_rule":"invite"}"#, ts_x, xa),
+        mk("$y", "@alice:a", "m.room.join_rules", "", r#"{"join_rule":"knock"}"#, ts_y, &["$c", "$ja", "$p2"]),
+    ];
+    case_from(6, evs, &[&["$c", "$ja", "$p2", "$jb", "$t0", "$x"], &["$c", "$ja", "$p2", "$jb", "$t0", "$y"]])
+}
+
+/// An event lists two membership events of its sender (a stale `leave` and the current `join`): the
+/// one listed LAST decides (`iterative_auth_check` fills its map in list order) unless the partial
+/// state has the key.  Here bob's membership is conflicted (one fork never saw bob) and the topic is
+/// older than his membership events, so it is checked first (seed5 C06-1).
+pub fn scenario_duplicate_member_slot(ts_t: u64, join_last: bool) -> ResolveCase {
+    let ta: &[&str] = if join_last { &["$c", "$p1", "$bl", "$bj"] } else { &["$c", "$p1", "$bj", "$bl"] };
+    let evs = vec![
+        mk("$c", "@alice:a", "m.room.create", "", r#"{"creator":"@alice:a","room_version":"6"}"#, 1, &[]),
+        mk("$ja", "@alice:a", "m.room.member", "@alice:a", JOIN, 2, &["$c"]),
+        mk("$p1", "@alice:a", "m.room.power_levels", "", r#"{"users":{"@alice:a":100,"@bob:b":50}}"#, 3, &["$c", "$ja"]),
+        mk("$jr", "@alice:a", "m.room.join_rules", "", r#"{"join_rule":"public"}"#, 4, &["$c", "$ja", "$p1"]),
+        mk("$bj0", "@bob:b", "m.room.member", "@bob:b", JOIN, 10, &["$c", "$p1", "$jr"]),
+        mk("$bl", "@bob:b", "m.room.member", "@bob:b", LEAVE, 20, &["$c", "$p1", "$bj0"]),
+        mk("$bj", "@bob:b", "m.room.member", "@bob:b", JOIN, 30, &["$c", "$p1", "$jr", "$bl"]),
+        mk("$t", "@bob:b", "m.room.topic", "", r#"{"topic":"hello"}"#, ts_t, ta),
+    ];
+    case_from(6, evs, &[&["$c", "$ja", "$p1", "$jr", "$bj", "$t"], &["$c", "$ja", "$p1", "$jr"]])
+}
+
+/// Gives some event a second auth event for a slot it already cites (an older event of the same type
+/// and state key), before or after the one it has.
+pub fn duplicate_slot_variant(c: &ResolveCase, r: &mut Rng) -> Option<ResolveCase> {
+    let mut c = c.clone();
+    let store = c.store();
+    let n = c.events.len();
+    for _ in 0..8 {
+        let i = r.below(n);
+        let e = (*c.events[i]).clone();
+        if e.auth.is_empty() {
+            continue;
+        }
+        let Some(a) = store.get(r.pick(&e.auth)) else { continue };
+        let (aty, ask, aid) = (a.ty.clone(), a.skey.clone(), a.id.clone());
+        // an earlier event (the list is topological) for the same slot
+        let older: Vec<Id> = c.events[..i]
+            .iter()
+            .filter(|o| o.ty == aty && o.skey == ask && o.id != aid && !e.auth.contains(&o.id))
+            .map(|o| o.id.clone())
+            .collect();
+        if older.is_empty() {
+            continue;
+        }
+        let o = r.pick(&older).clone();
+        let mut e2 = e.clone();
+        let pos = r.below(e2.auth.len() + 1);
+        e2.auth.insert(pos, o);
+        c.events[i] = Arc::new(e2);
+        let st = c.store();
+        c.chains = c.sets.iter().map(|s| auth_chain_of(&st, s.values().cloned())).collect();
+        return Some(c);
+    }
+    None
+}
+
 /// A restricted join vouched for by a user who is banned concurrently on the other fork (room versions
 /// 8 to 11): the vouching user's membership must be re-read from the partial state, so the join falls
 /// with the ban (seed4 C07-2).
@@ -1185,6 +1260,14 @@ pub fn run(tier: &str, seed: u64, em: &mut Emitter) {
                 emit_resolve(em, "systematic", &scenario_restricted_join_vs_ban(v, tx + 10, ty + 10));
             }
             emit_resolve(em, "systematic", &scenario_chain_through_unconflicted(tx, ty));
+            for f in [false, true] {
+                emit_resolve(em, "systematic", &scenario_duplicate_power_levels_slot(tx + 10, ty + 10, f));
+            }
+        }
+    }
+    for ts in [5u64, 25, 40] {
+        for f in [false, true] {
+            emit_resolve(em, "systematic", &scenario_duplicate_member_slot(ts, f));
         }
     }
     gen_sort_cases(tier, &mut r, em);
@@ -1202,6 +1285,11 @@ pub fn run(tier: &str, seed: u64, em: &mut Emitter) {
             if r.chance(1, 8) {
                 let m = malformed_variant(&c, &mut r);
                 emit_resolve(em, "malformed", &m);
+            }
+            if r.chance(1, 6) {
+                if let Some(m) = duplicate_slot_variant(&c, &mut r) {
+                    emit_resolve(em, "duplicate-slot", &m);
+                }
             }
         }
     }
